@@ -600,3 +600,48 @@ def _(u):
     _ctx_unit(u, "MTSPContext", {"num_agents": ((), "i"), "agent_idx": ((), "i"), "current_length": ((), "f"), "max_subtour_length": ((), "f"),
                                 "locs": (lambda N: (N, 2), "f")}, E_extra=lambda: None, squeeze_min2=True,
               extra_attrs=lambda u, E: {"proj_dynamic_feats": linear(u, "proj_dynamic_feats", 4, E), "project_context": linear(u, "project_context2", 2 * E, E)})
+
+
+@unit("decoding.rollout", file=DEC, func="rollout", props=("C02", "C03", "C11"))
+def _(u):
+    # the helper keeps stepping while ANY instance is unfinished, stacks the actions in execution order and asks the
+    # environment for the reward of exactly those actions on the final state (3-step episode, any batch size)
+    B = u.dim("B")
+    T = 3
+    acts = [u.tensor(f"action{t}", (B,), "i") for t in range(T)]
+    rew = u.tensor("reward", (B,), "f")
+    log = []
+    td0 = SymTD({"done": _Flag(False), "obs": u.tensor("obs", (B, 2), "f")}, (B,))
+
+    def policy(td):
+        td.data["action"] = acts[len([x for x in log if x[0] == "step"])]
+        log.append(("policy",))
+        return td
+
+    def step(td):
+        log.append(("step", td["action"]))
+        td.data["done"] = _Flag(len([x for x in log if x[0] == "step"]) >= T)
+        return {"next": td}
+
+    seen = {}
+    env = u.ns(step=step, get_reward=lambda td, a: (seen.update(td=td, a=a), rew)[1])
+    r, td_out, A = u.run(DEC, "rollout", env, td0, policy, record=False)
+    b = u.idx((B,), "b")
+    u.prove("rollout.alternates-policy-and-step", [x[0] for x in log] == ["policy", "step"] * T)
+    same_tensor(u, "rollout.actions.shape", A, (B, T), lambda bb, tt: A.at(bb, tt))
+    for t in range(T):
+        u.prove(f"rollout.action{t}-in-execution-order", AND(A.at(b, t) == acts[t].at(b), log[2 * t + 1][1] is acts[t]))
+    u.prove("rollout.reward-of-the-stacked-actions-on-the-final-state", AND(seen["td"] is td_out, r.at(b) == rew.at(b), tuple(seen["a"].shape) == tuple(A.shape),
+                                                                            *[seen["a"].at(b, t) == acts[t].at(b) for t in range(T)]))
+    # the safety cap: stop after max_steps + 1 steps even if the environment never finishes
+    log.clear()
+    td1 = SymTD({"done": _Flag(False), "obs": u.tensor("obs1", (B, 2), "f")}, (B,))
+
+    def step_never(td):
+        log.append(("step", td["action"]))
+        return {"next": td}
+
+    env2 = u.ns(step=step_never, get_reward=lambda td, a: rew)
+    pol2 = lambda td: (td.data.__setitem__("action", acts[0]), td)[1]
+    _, _, A2 = u.run(DEC, "rollout", env2, td1, pol2, 1, record=False)
+    u.prove("rollout.max-steps-cap", len(log) == 2 and tuple(A2.shape)[1] == 2)
